@@ -1,24 +1,26 @@
 #!/bin/bash
-# Runs the native reproductions in /verif/native against /repo's working tree without
-# touching it: test files are injected with -overlay, module files are copied to scratch.
-# usage: native/run.sh <pkg-dir-under-native> [-run regexp]
+# Runs the native reproductions under /verif/native (a mirror of /repo's tree) against /repo's
+# working tree without touching it: files are injected with -overlay, module files are copied
+# to scratch.   usage: native/run.sh <package dir relative to repo root> [go test flags]
 set -u
 cd "$(dirname "$0")/.."
 export GOFLAGS=-mod=mod GOPROXY=off GOSUMDB=off GOTOOLCHAIN=local
 REPO="${WSYM_REPO:-/repo}"
 pkg="$1"; shift
-work=".work/native.$$"; mkdir -p "$work"
+work="$PWD/.work/native.$$"; mkdir -p "$work"
 cp "$REPO/go.mod" "$work/replay.mod"; cp "$REPO/go.sum" "$work/replay.sum"
-python3 - "$pkg" "$work" "$REPO" <<'PY'
+python3 - "$work" "$REPO" <<'PY'
 import json,os,sys
-pkg,work,repo=sys.argv[1:4]
+work,repo=sys.argv[1:3]
 rep={}
-for f in os.listdir(os.path.join('native',pkg)):
-    if f.endswith('.go'):
-        rep[os.path.join(repo,'internal',pkg,f)]=os.path.abspath(os.path.join('native',pkg,f))
+for root,_,files in os.walk('native'):
+    for f in files:
+        if f.endswith('.go'):
+            rel=os.path.relpath(os.path.join(root,f),'native')
+            rep[os.path.join(repo,rel)]=os.path.abspath(os.path.join(root,f))
 json.dump({"Replace":rep},open(os.path.join(work,'overlay.json'),'w'))
 PY
-(cd "$REPO" && go test -modfile="$OLDPWD/$work/replay.mod" -overlay="$OLDPWD/$work/overlay.json" -vet=off -count=1 "$@" "./internal/$pkg/")
+(cd "$REPO" && go test -modfile="$work/replay.mod" -overlay="$work/overlay.json" -vet=off -count=1 "$@" "./$pkg/")
 rc=$?
 rm -rf "$work"
 exit $rc
